@@ -32,128 +32,237 @@ fn take_list(a: &[I]) -> (Vec<u8>, &[I]) {
     (bytes_of(&a[1..1 + n]), &a[1 + n..])
 }
 
-enum Carrier<'a> {
-    Buf(BitBuffer),
-    Bits(Bits<'a>),
-}
-
-fn state_rec(c: &Carrier, out: &mut Vec<I>) {
-    match c {
-        Carrier::Buf(b) => {
-            // read position is pub(crate); recover it through a clone-free trick: not observable -> track separately
-            out.push(b.byte_len() as I);
-            out.push(b.bit_len() as I);
-        }
-        Carrier::Bits(r) => {
-            out.push(r.len() as I / 1);
-        }
+fn status(r: Result<(), Error>) -> Vec<I> {
+    match r {
+        Ok(()) => vec![0],
+        Err(e) => vec![1, per_err_kind(&e)],
     }
 }
 
-fn run_seq(mut c: Carrier, mut a: &[I], slice_len: usize) -> Vec<I> {
+fn read_out(r: Result<(), Error>, dst: &[u8]) -> Vec<I> {
+    match r {
+        Ok(()) => {
+            let mut o = vec![0];
+            o.extend(dst.iter().map(|b| *b as I));
+            o
+        }
+        Err(e) => vec![1, per_err_kind(&e)],
+    }
+}
+
+fn bit_out(r: Result<bool, Error>) -> Vec<I> {
+    match r {
+        Ok(bit) => vec![0, bit as I],
+        Err(e) => vec![1, per_err_kind(&e)],
+    }
+}
+
+/// Bits::from(&BitBuffer): len, pos, remaining, is_empty, then everything read back
+fn bits_probe(b: &BitBuffer) -> Vec<I> {
+    let mut r = Bits::from(b);
+    let len = r.len();
+    let mut o: Vec<I> = vec![0, len as I, r.pos() as I, r.remaining() as I, r.is_empty() as I];
+    if len > 1_048_576 {
+        o.push(3);
+        return o;
+    }
+    let mut dst = vec![0u8; (len + 7) / 8];
+    match r.read_bits_with_len(&mut dst, len) {
+        Ok(()) => {
+            o.push(0);
+            o.push(r.pos() as I);
+            o.extend(dst.iter().map(|b| *b as I));
+        }
+        Err(e) => o.extend([1, per_err_kind(&e)]),
+    }
+    o
+}
+
+const BAD: I = -99;
+
+/// One sub-op on a BitBuffer; returns its output and the unread arguments. The closures handed
+/// to the scoped combinators are `Fn`: they only return values.
+fn bstep<'x>(b: &mut BitBuffer, a: &'x [I]) -> (Vec<I>, &'x [I]) {
+    let op = a[0];
+    let a = &a[1..];
+    match op {
+        1 => (status(b.write_bit(a[0] != 0)), &a[1..]),
+        2 => {
+            let (soff, slen) = (a[0] as usize, a[1] as usize);
+            let (src, rest) = take_list(&a[2..]);
+            (status(b.write_bits_with_offset_len(&src, soff, slen)), rest)
+        }
+        7 => {
+            let soff = a[0] as usize;
+            let (src, rest) = take_list(&a[1..]);
+            (status(b.write_bits_with_offset(&src, soff)), rest)
+        }
+        11 => {
+            let (src, rest) = take_list(a);
+            (status(b.write_bits(&src)), rest)
+        }
+        12 => {
+            let len = a[0] as usize;
+            let (src, rest) = take_list(&a[1..]);
+            (status(b.write_bits_with_len(&src, len)), rest)
+        }
+        3 => (bit_out(b.read_bit()), a),
+        4 => {
+            let (doff, dlen, n, fill) = (a[0] as usize, a[1] as usize, a[2] as usize, a[3] as u8);
+            let mut dst = vec![fill; n];
+            let r = b.read_bits_with_offset_len(&mut dst, doff, dlen);
+            (read_out(r, &dst), &a[4..])
+        }
+        13 => {
+            let (n, fill) = (a[0] as usize, a[1] as u8);
+            let mut dst = vec![fill; n];
+            let r = b.read_bits(&mut dst);
+            (read_out(r, &dst), &a[2..])
+        }
+        14 => {
+            let (dlen, n, fill) = (a[0] as usize, a[1] as usize, a[2] as u8);
+            let mut dst = vec![fill; n];
+            let r = b.read_bits_with_len(&mut dst, dlen);
+            (read_out(r, &dst), &a[3..])
+        }
+        15 => {
+            let (doff, n, fill) = (a[0] as usize, a[1] as usize, a[2] as u8);
+            let mut dst = vec![fill; n];
+            let r = b.read_bits_with_offset(&mut dst, doff);
+            (read_out(r, &dst), &a[3..])
+        }
+        5 => {
+            let (pos, bit) = (a[0] as usize, a[1] != 0);
+            (status(b.with_write_position_at(pos, |b| b.write_bit(bit))), &a[2..])
+        }
+        16 => {
+            b.clear();
+            (vec![0], a)
+        }
+        17 => {
+            b.reset_read_position();
+            (vec![0], a)
+        }
+        18 => {
+            b.ensure_can_write_additional_bits(a[0] as usize);
+            (vec![0], &a[1..])
+        }
+        19 => (vec![0, b.byte_len() as I, b.bit_len() as I], a),
+        20 => b.with_write_position_at(a[0] as usize, |b| bstep(b, &a[1..])),
+        21 => b.with_read_position_at(a[0] as usize, |b| bstep(b, &a[1..])),
+        22 => b.with_max_read(a[0] as usize, |b| bstep(b, &a[1..])),
+        30 => (bits_probe(b), a),
+        _ => (vec![BAD], &a[..0]),
+    }
+}
+
+fn rstep<'x>(r: &mut Bits, a: &'x [I]) -> (Vec<I>, &'x [I]) {
+    let op = a[0];
+    let a = &a[1..];
+    match op {
+        3 => (bit_out(r.read_bit()), a),
+        4 => {
+            let (doff, dlen, n, fill) = (a[0] as usize, a[1] as usize, a[2] as usize, a[3] as u8);
+            let mut dst = vec![fill; n];
+            let x = r.read_bits_with_offset_len(&mut dst, doff, dlen);
+            (read_out(x, &dst), &a[4..])
+        }
+        13 => {
+            let (n, fill) = (a[0] as usize, a[1] as u8);
+            let mut dst = vec![fill; n];
+            let x = r.read_bits(&mut dst);
+            (read_out(x, &dst), &a[2..])
+        }
+        14 => {
+            let (dlen, n, fill) = (a[0] as usize, a[1] as usize, a[2] as u8);
+            let mut dst = vec![fill; n];
+            let x = r.read_bits_with_len(&mut dst, dlen);
+            (read_out(x, &dst), &a[3..])
+        }
+        15 => {
+            let (doff, n, fill) = (a[0] as usize, a[1] as usize, a[2] as u8);
+            let mut dst = vec![fill; n];
+            let x = r.read_bits_with_offset(&mut dst, doff);
+            (read_out(x, &dst), &a[3..])
+        }
+        8 => {
+            let p = r.set_pos(a[0] as usize);
+            (vec![0, p as I], &a[1..])
+        }
+        9 => (vec![0, r.remaining() as I], a),
+        10 => {
+            let l = r.set_len(a[0] as usize);
+            (vec![0, l as I], &a[1..])
+        }
+        21 => r.with_read_position_at(a[0] as usize, |r| rstep(r, &a[1..])),
+        _ => (vec![BAD], &a[..0]),
+    }
+}
+
+/// byte_len(), bit_len(), the read position (observed as bit_len() inside with_max_read(0, ..):
+/// the field is not public), content()
+fn buf_state(b: &mut BitBuffer, acc: &mut Vec<I>) {
+    acc.push(b.byte_len() as I);
+    acc.push(b.bit_len() as I);
+    let rpos = b.with_max_read(0, |b| b.bit_len());
+    acc.push(rpos as I);
+    acc.extend(b.content().iter().map(|b| *b as I));
+}
+
+fn run_buf_seq(mut b: BitBuffer, mut a: &[I]) -> Vec<I> {
     let mut acc: Vec<I> = vec![0];
-    let mut rpos: usize = 0; // BitBuffer::read_position is not public: mirrored here from successful reads
+    buf_state(&mut b, &mut acc);
     while !a.is_empty() {
-        let op = a[0];
-        a = &a[1..];
-        let mut out: Vec<I> = Vec::new();
-        let mut status = |r: Result<(), Error>, out: &mut Vec<I>| match r {
-            Ok(()) => out.push(0),
-            Err(e) => {
-                out.push(1);
-                out.push(per_err_kind(&e));
-            }
-        };
-        match (op, &mut c) {
-            (1, Carrier::Buf(b)) => {
-                let r = b.write_bit(a[0] != 0);
-                a = &a[1..];
-                status(r, &mut out);
-            }
-            (2, Carrier::Buf(b)) => {
-                let (soff, slen) = (a[0] as usize, a[1] as usize);
-                let (src, rest) = take_list(&a[2..]);
-                a = rest;
-                let r = b.write_bits_with_offset_len(&src, soff, slen);
-                status(r, &mut out);
-            }
-            (7, Carrier::Buf(b)) => {
-                let soff = a[0] as usize;
-                let (src, rest) = take_list(&a[1..]);
-                a = rest;
-                let r = b.write_bits_with_offset(&src, soff);
-                status(r, &mut out);
-            }
-            (3, Carrier::Buf(b)) => match b.read_bit() {
-                Ok(bit) => {
-                    rpos += 1;
-                    out.extend([0, bit as I]);
-                }
-                Err(e) => out.extend([1, per_err_kind(&e)]),
-            },
-            (3, Carrier::Bits(r)) => match r.read_bit() {
-                Ok(bit) => out.extend([0, bit as I]),
-                Err(e) => out.extend([1, per_err_kind(&e)]),
-            },
-            (4, _) => {
-                let (doff, dlen, n, fill) = (a[0] as usize, a[1] as usize, a[2] as usize, a[3] as u8);
-                a = &a[4..];
-                let mut dst = vec![fill; n];
-                let r = match &mut c {
-                    Carrier::Buf(b) => b.read_bits_with_offset_len(&mut dst, doff, dlen),
-                    Carrier::Bits(r) => r.read_bits_with_offset_len(&mut dst, doff, dlen),
-                };
-                match r {
-                    Ok(()) => {
-                        rpos = rpos.wrapping_add(dlen);
-                        out.push(0);
-                        out.extend(dst.iter().map(|b| *b as I));
-                    }
-                    Err(e) => out.extend([1, per_err_kind(&e)]),
-                }
-            }
-            (5, Carrier::Buf(b)) => {
-                let (pos, bit) = (a[0] as usize, a[1] != 0);
-                a = &a[2..];
-                let r = b.with_write_position_at(pos, |b| b.write_bit(bit));
-                status(r, &mut out);
-            }
-            (8, Carrier::Bits(r)) => {
-                r.set_pos(a[0] as usize);
-                a = &a[1..];
-                out.push(0);
-            }
-            (9, Carrier::Bits(r)) => {
-                let n = r.remaining();
-                out.extend([0, n as I]);
-            }
-            (10, Carrier::Bits(r)) => {
-                r.set_len(a[0] as usize);
-                a = &a[1..];
-                out.push(0);
-            }
-            _ => return vec![2, 99],
+        let (out, rest) = bstep(&mut b, a);
+        if out == [BAD] {
+            return vec![2, 99];
         }
+        a = rest;
         acc.extend(out);
-        match &c {
-            Carrier::Buf(b) => {
-                acc.extend([
-                    b.byte_len() as I,
-                    b.bit_len() as I,
-                    rpos as I,
-                    b.content().last().copied().unwrap_or(0) as I,
-                ]);
-            }
-            Carrier::Bits(r) => {
-                acc.extend([slice_len as I, r.len() as I, r.pos() as I, 0]);
-            }
-        }
+        buf_state(&mut b, &mut acc);
     }
-    if let Carrier::Buf(b) = &c {
-        acc.extend(b.content().iter().map(|b| *b as I));
-    }
-    let _ = state_rec;
+    let v: Vec<u8> = b.into();
+    acc.extend(v.iter().map(|b| *b as I));
     acc
+}
+
+fn run_bits_seq(mut r: Bits, mut a: &[I], slice_len: usize) -> Vec<I> {
+    let mut acc: Vec<I> = vec![0];
+    acc.extend([slice_len as I, r.len() as I, r.pos() as I, r.is_empty() as I]);
+    while !a.is_empty() {
+        let (out, rest) = rstep(&mut r, a);
+        if out == [BAD] {
+            return vec![2, 99];
+        }
+        a = rest;
+        acc.extend(out);
+        acc.extend([slice_len as I, r.len() as I, r.pos() as I, r.is_empty() as I]);
+    }
+    acc
+}
+
+fn buf_ctor(a: &[I]) -> Option<(BitBuffer, &[I])> {
+    Some(match a[0] {
+        0 => (BitBuffer::default(), &a[1..]),
+        1 => (BitBuffer::with_capacity(a[1] as usize), &a[2..]),
+        2 => {
+            let (l, rest) = take_list(&a[1..]);
+            (BitBuffer::from_bytes(l), rest)
+        }
+        3 => {
+            let (l, rest) = take_list(&a[1..]);
+            (BitBuffer::from_bits(l, rest[0] as usize), &rest[1..])
+        }
+        4 => {
+            let (l, rest) = take_list(&a[1..]);
+            (BitBuffer::from_bits_with_position(l, rest[0] as usize, rest[1] as usize), &rest[2..])
+        }
+        5 => {
+            let (l, rest) = take_list(&a[1..]);
+            (BitBuffer::from(l), rest)
+        }
+        _ => return None,
+    })
 }
 
 fn enc_pd(r: Result<(), Error>, pos: usize, d: &[u8]) -> Vec<I> {
@@ -197,13 +306,34 @@ pub fn run(op: I, a: &[I]) -> Vec<I> {
                 Err(e) => vec![1, per_err_kind(&e)],
             }
         }
-        1110 => run_seq(Carrier::Buf(BitBuffer::default()), a, 0),
+        1110 => run_buf_seq(BitBuffer::default(), a),
         1111 => {
             let len = a[0] as usize;
             let (sl, ops) = take_list(&a[1..]);
-            // Bits::from((slice,len)) debug_asserts len <= 8*slice.len(); the harness keeps to that
-            run_seq(Carrier::Bits(Bits::from((&sl[..], len))), ops, sl.len())
+            // Bits::from((slice,len)) debug_asserts len <= 8*slice.len(); the generator keeps to that here
+            run_bits_seq(Bits::from((&sl[..], len)), ops, sl.len())
         }
+        1112 => match buf_ctor(a) {
+            Some((b, ops)) => run_buf_seq(b, ops),
+            None => vec![2, 99],
+        },
+        1113 => match a[0] {
+            0 => {
+                let (sl, ops) = take_list(&a[1..]);
+                run_bits_seq(Bits::from(&sl[..]), ops, sl.len())
+            }
+            1 => {
+                let (sl, rest) = take_list(&a[1..]);
+                run_bits_seq(Bits::from((&sl[..], rest[0] as usize)), &rest[1..], sl.len())
+            }
+            2 => {
+                let (sl, rest) = take_list(&a[1..]);
+                let n = sl.len();
+                let b = BitBuffer::from_bits_with_position(sl, rest[0] as usize, rest[1] as usize);
+                run_bits_seq(Bits::from(&b), &rest[2..], n)
+            }
+            _ => vec![2, 99],
+        },
         _ => vec![-1],
     }
 }
